@@ -2,4 +2,6 @@ import FpVerif.Properties.C05
 #print axioms Fp.C05.gen_ok
 #print axioms Fp.C05.no_spoof_loop
 #print axioms Fp.C05.no_spoof
+#print axioms Fp.C05.lastFor_uniq
+#print axioms Fp.C05.delivered
 #print axioms Fp.C05.at_most_one
